@@ -56,7 +56,7 @@ PARTIAL = {
     "Output.no_trace_texts_partial": "the unlinked root nodes of classIndex.html, under: no listed class has an invisible base or an "
                                      "unresolved base expression naming an invisible object (counterexample: "
                                      "no_trace_texts_counterexample; open finding hidden-trace:classindex-root-name). "
-                                     "Output.no_trace itself is full: all 28 producer rows, no hypothesis.",
+                                     "Output.no_trace itself is full: all 30 producer rows, no hypothesis.",
 }
 EXPLANATION = ("The producer table of DESIGN C12 is a Lean function from the object table to the list of taglink requests and listing "
                "entries; `taglinkGuard` models the visibility guard inside taglink (aaed9bd). No hyperlink targets an invisible "
